@@ -192,6 +192,101 @@ def aero_pipeline_suite(stats, tier=None, n=None, label="pipeline:AeroPoint"):
     return stats
 
 
+def model_compressible_states(surfaces, flow):
+    from .pipelines import left_flag
+    ints = [len(surfaces)]
+    fl = [flow["alpha"], flow["beta"], flow["v"], flow["rho"], flow["Mach_number"]]
+    for s in surfaces:
+        m = s["mesh"]
+        ints += [m.shape[0], m.shape[1], int(s["symmetry"]), int(left_flag(m)), 0]
+        fl += list(np.asarray(m, dtype=float).ravel())
+    N = sum((s["mesh"].shape[0] - 1) * (s["mesh"].shape[1] - 1) for s in surfaces)
+    return core.model_value("CompressibleStates", ints, np.array(fl)).reshape(N, 3)
+
+
+def compressible_pipeline_suite(stats, tier=None, n=None, label="pipeline:CompressibleAeroPoint"):
+    """real AeroPoint(compressible=True) (PGTransform -> incompressible states -> InversePGTransform) vs the model's
+    CompressibleStates pipeline (PG.toWind / scale* / fromWind around the same vlmCore)."""
+    from . import pipelines
+    tier = tier or core.TIER
+    n = n if n is not None else (5 if tier == "quick" else 40)
+    for k in range(n):
+        rng = core.rng_for("compressible_pipeline", k)
+        surfaces, flow, _ = aero_case(rng, tier, force=dict(ground=False, rotational=False))
+        flow["Mach_number"] = float(rng.uniform(0.05, 0.88))
+        try:
+            prob = pipelines.run_aero_point(surfaces, flow, compressible=True)
+        except Exception as e:
+            stats.disagreements.append(dict(kind="real-code-exception", component="AeroPoint(compressible)",
+                                            detail="%s: %s" % (type(e).__name__, str(e)[:300]), seed_keys=["compressible_pipeline", k]))
+            stats.count(label, case_hash("comp-exc", k), False)
+            continue
+        real = pipelines.aero_outputs(prob, surfaces)
+        real_forces = np.concatenate([real[s["name"]]["sec_forces"].reshape(-1, 3) for s in surfaces])
+        mod = model_compressible_states(surfaces, flow)
+        cond = float(np.linalg.cond(np.array(prob.get_val("pt.aero_states.mtx"))))
+        ok, msg = close_vec(real_forces, mod, rtol=1e-9 + 1e-13 * cond)
+        if not ok:
+            stats.disagreements.append(dict(kind="pipeline-value", component="AeroPoint(compressible):sec_forces",
+                                            size=[s["mesh"].shape[:2] for s in surfaces], detail=msg, seed_keys=["compressible_pipeline", k]))
+        stats.count(label, case_hash("comp", k, flow["Mach_number"], surfaces[0]["mesh"]), bool(np.any(np.abs(real_forces) > 0)),
+                    ("surfaces=%d" % len(surfaces), "sideslip=%s" % (flow["beta"] != 0), "Mach>0.5=%s" % (flow["Mach_number"] > 0.5)))
+        if k == 0:
+            stats.sample(dict(suite=label, Mach=flow["Mach_number"], alpha=flow["alpha"], CL=real["CL"], cond=cond))
+    return stats
+
+
+def aerostruct_pipeline_suite(stats, tier=None, n=None, label="pipeline:AerostructPoint.coupled"):
+    """real AerostructGeometry + AerostructPoint (NLBGS to 1e-13) vs the model's own block Gauss-Seidel fixed point of
+    DisplacementTransfer -> VLM states -> LoadTransfer -> FEM solve, on the same mesh, nodes and element stiffnesses."""
+    from . import pipelines
+    tier = tier or core.TIER
+    n = n if n is not None else (3 if tier == "quick" else 20)
+    for k in range(n):
+        rng = core.rng_for("aerostruct_pipeline", k)
+        nx = int(rng.choice([2, 3])); ny = int(rng.choice([3, 4, 5] if tier == "quick" else [3, 4, 5, 7]))
+        sym = bool(rng.integers(2))
+        if not sym and ny % 2 == 0:
+            ny += 1
+        mesh = gen.rand_mesh(rng, nx, ny, sym)
+        mesh[:, :, 1] *= 4.0; mesh[:, :, 0] *= 1.5                      # a wing-sized planform: span ~ several metres
+        s = pipelines.struct_surface("wing", mesh, sym, fem_origin=float(rng.uniform(0.25, 0.5)), with_viscous=False,
+                                     thickness_cp=rng.uniform(0.004, 0.02, size=2))
+        flow = dict(alpha=float(rng.uniform(-4, 8)), beta=0.0 if sym else float(rng.uniform(-5, 5)), v=float(rng.uniform(40, 120)),
+                    rho=float(rng.uniform(0.4, 1.2)), Mach_number=0.0)
+        import openaerostruct.integration.aerostruct_groups as ag
+        prob = pipelines.build_aerostruct([s], [flow], nonlinear="nlbgs", aitken=False)
+        # the pinned AerostructPoint uses the compressible states; at Mach 0 they coincide with the modelled incompressible ones
+        try:
+            with core.quiet():
+                prob.run_model()
+        except Exception as e:
+            stats.disagreements.append(dict(kind="real-code-exception", component="AerostructPoint",
+                                            detail="%s: %s" % (type(e).__name__, str(e)[:300]), seed_keys=["aerostruct_pipeline", k]))
+            stats.count(label, case_hash("as-exc", k), False)
+            continue
+        g = lambda nm: np.array(prob.get_val(nm))
+        m0 = g("wing.mesh"); nodes = g("wing.nodes"); kloc = g("wing.local_stiff_transformed")
+        disp = g("AS_point_0.coupled.wing.disp"); secf = g("AS_point_0.coupled.aero_states.wing_sec_forces").reshape(-1, 3)
+        loads = g("AS_point_0.coupled.wing.loads")
+        fl = np.concatenate([[flow["alpha"], flow["beta"], flow["v"], flow["rho"], s["fem_origin"]], m0.ravel(), nodes.ravel(), kloc.ravel()])
+        out = core.model_value("AeroStructCoupled", [nx, ny, int(sym), int(pipelines.left_flag(m0))], fl)
+        N = (nx - 1) * (ny - 1)
+        mdisp = out[:6 * ny].reshape(ny, 6); mf = out[6 * ny:6 * ny + 3 * N].reshape(N, 3)
+        ml = out[6 * ny + 3 * N:6 * ny + 3 * N + 6 * ny].reshape(ny, 6); its = int(out[-1])
+        for what, a, b in (("disp", disp, mdisp), ("sec_forces", secf, mf), ("loads", loads, ml)):
+            ok, msg = close_vec(a, b, rtol=1e-6)
+            if not ok:
+                stats.disagreements.append(dict(kind="pipeline-value", component="AerostructPoint.coupled:" + what, size=[nx, ny],
+                                                detail=msg + " (model iterations %d)" % its, seed_keys=["aerostruct_pipeline", k]))
+        stats.count(label, case_hash("as", k, flow["alpha"], mesh), bool(np.max(np.abs(disp)) > 1e-9),
+                    ("sym=%s" % sym, "iterations=%d" % its, "tip_deflection>1cm=%s" % (np.max(np.abs(disp[:, 2])) > 1e-2)))
+        if k == 0:
+            stats.sample(dict(suite=label, shape=[nx, ny], symmetry=sym, alpha=flow["alpha"], max_disp=float(np.max(np.abs(disp))),
+                              model_iterations=its))
+    return stats
+
+
 # ----------------------------------------------------------------------------------------
 # end-to-end: real AssembleKGroup + SpatialBeamStates vs the model's SpatialBeam pipeline
 # ----------------------------------------------------------------------------------------
